@@ -290,6 +290,7 @@ type World struct {
 	live       []*liveHeight
 	liveAbstain bool
 	stableBudget, stableStart, byzSteps int
+	advPlan  []string
 	yieldAll bool
 	yieldN   int
 	yields   []*yieldRec
